@@ -86,6 +86,53 @@ class Body:
         self._reach_cache[key] = seen
         return seen
 
+    def reachable_cp(self, start):
+        """Blocks reachable from `start` with constant propagation of bool / small-int locals assigned literal constants
+        (the `matches!` / flag idiom): a switch on a local whose value is known follows only the matching target."""
+        seen = set()
+        out = set()
+        stack = [(start, frozenset())]
+        while stack:
+            b, facts = stack.pop()
+            if (b, facts) in seen or len(seen) > 4000:
+                continue
+            seen.add((b, facts))
+            out.add(b)
+            f = dict(facts)
+            blk = self.blocks[b]
+            for st in blk["stmts"]:
+                if st["k"] != "assign":
+                    continue
+                p = st["place"]
+                if p["p"]:
+                    continue
+                rv = st["rv"]
+                if rv["k"] == "use" and rv["op"]["k"] == "const" and "int" in rv["op"] and rv["op"]["ty"] in ("bool", "u8", "usize", "isize", "u32", "i32"):
+                    f[p["l"]] = int(rv["op"]["int"])
+                elif rv["k"] == "use" and rv["op"]["k"] in ("copy", "move") and not rv["op"]["place"]["p"] and rv["op"]["place"]["l"] in f:
+                    f[p["l"]] = f[rv["op"]["place"]["l"]]
+                elif rv["k"] == "unop" and rv["op"] == "Not" and rv["a"]["k"] in ("copy", "move") and not rv["a"]["place"]["p"] and rv["a"]["place"]["l"] in f:
+                    f[p["l"]] = 0 if f[rv["a"]["place"]["l"]] else 1
+                else:
+                    f.pop(p["l"], None)
+            t = blk["term"]
+            if t["k"] == "call" and not t["dest"]["p"]:
+                f.pop(t["dest"]["l"], None)
+            nf = frozenset(f.items())
+            succs = self.succs[b]
+            if t["k"] == "switch" and t["discr"]["k"] in ("copy", "move") and not t["discr"]["place"]["p"] and t["discr"]["place"]["l"] in f:
+                val = f[t["discr"]["place"]["l"]]
+                tgt = None
+                for x, tb in t["arms"]:
+                    if int(x) == val:
+                        tgt = tb
+                if tgt is None:
+                    tgt = t["otherwise"]
+                succs = [tgt] if not self.blocks[tgt]["cleanup"] else []
+            for s in succs:
+                stack.append((s, nf))
+        return out
+
     def edge_dominates(self, edge, block):
         """Every path entry -> block passes through `edge` (block reachable at all is not required)."""
         return block not in self.reachable_from(0, cut_edges=(edge,))
